@@ -25,7 +25,7 @@ def _nontrivial(script, r):
 
 def run(ctx, deep=False):
     thorough = deep or ctx.tier == "thorough"
-    k = 10 if thorough else 1
+    k = 20 if thorough else 4
     ctx.coverage["rule"] = (
         "script families: outage (1..14 sends of mixed policies queued while refused, then a connection), steady (sends from "
         "several tasks while connected, connect latency 0..3 ticks), a run of 300+ sends past the 256-value packet counter, and "
